@@ -55,6 +55,8 @@ mod c_gen;
 mod c_conv;
 #[path = "../search/c_misc.rs"]
 mod c_misc;
+#[path = "../search/c_scc.rs"]
+mod c_scc;
 
 use {
     json::J,
@@ -160,9 +162,9 @@ pub fn eval_case<C: Case>(c: &C) -> Option<J> {
     }
 }
 
-const PROPS: [&str; 16] = [
-    "C01", "C02", "C03", "C04", "C05", "C06", "C07", "C08", "C11", "C12", "C14",
-    "C15", "C16", "C18", "C19", "C20",
+const PROPS: [&str; 18] = [
+    "C01", "C02", "C03", "C04", "C05", "C06", "C07", "C08", "C09", "C10", "C11",
+    "C12", "C14", "C15", "C16", "C18", "C19", "C20",
 ];
 
 fn search(prop: &str, seed: u64, ctx: &mut Ctx) -> Option<J> {
@@ -171,6 +173,8 @@ fn search(prop: &str, seed: u64, ctx: &mut Ctx) -> Option<J> {
         "C02" => c_repr::search_c02(seed, ctx),
         "C03" | "C04" | "C05" | "C06" => c_trav::search(prop, seed, ctx),
         "C07" | "C08" => c_sp::search(prop, seed, ctx),
+        "C09" => c_scc::search_c09(seed, ctx),
+        "C10" => c_scc::search_c10(seed, ctx),
         "C11" => c_ops::search_c11(seed, ctx),
         "C12" => c_ops::search_c12(seed, ctx),
         "C14" => c_gen::search_c14(seed, ctx),
@@ -189,6 +193,8 @@ fn replay(prop: &str, j: &J) -> Result<Option<J>, String> {
         "C02" => c_repr::replay_c02(j),
         "C03" | "C04" | "C05" | "C06" => c_trav::replay(prop, j),
         "C07" | "C08" => c_sp::replay(prop, j),
+        "C09" => c_scc::replay_c09(j),
+        "C10" => c_scc::replay_c10(j),
         "C11" => c_ops::replay_c11(j),
         "C12" => c_ops::replay_c12(j),
         "C14" => c_gen::replay_c14(j),
